@@ -6,7 +6,7 @@ import ast
 from ..cfg import cfg_of
 from ..excflow import primitive_sites
 from ..model import AnalysisError, NotConst, dotted, norm, walk_own
-from .common import cmp_fact, find_calls, guards_of, key_of, str_template, template_text
+from .common import cmp_fact, find_calls, guards_of, key_of, resolve_locals, str_template, template_text, text_matches
 
 EXPLANATION = (
     "Static dominance / def-use / table checks of the translation request -> environ: underscore names never reach the "
@@ -135,7 +135,12 @@ def rule_r4(ctx):
     stores = [n for n in g.nodes if n.kind == "stmt" and isinstance(n.ast, ast.Assign) and isinstance(n.ast.targets[0], ast.Subscript) and dotted(n.ast.targets[0].value) == "environ"]
     in_loop = [n for n in stores if any(x is n.ast for x in ast.walk(lp.ast))]
     after = [n for n in stores if n not in in_loop]
-    if not in_loop:
+    # environ.setdefault(key, value) is the guarded store in one call
+    sd = [(n, c) for n, c in find_calls(g, lambda c: dotted(c.func) == "environ.setdefault" and len(c.args) == 2) if any(x is c for x in ast.walk(lp.ast))]
+    for n, c in sd:
+        ctx.r.ok(rid, "client header stored with setdefault: never replaces a defined key", f.loc(n.ast))
+        _key_derivation(ctx, rid, f, g, lp, norm(c.args[0]), n)
+    if not in_loop and not sd:
         ctx.r.violation(rid, key_of(f, None, "no-client-store"), "client headers are never copied into the environ", f.loc(lp.ast))
     for n in in_loop:
         kv = norm(n.ast.targets[0].slice)
@@ -145,17 +150,7 @@ def rule_r4(ctx):
             ctx.r.ok(rid, "client header stored only if the key is not already defined", f.loc(n.ast))
         else:
             ctx.r.violation(rid, key_of(f, None, "client-overrides-server"), "a client header is stored without the 'key not in environ' guard: it can replace a server-defined variable", f.loc(n.ast))
-        # key derivation
-        defs = [m for m in g.nodes if m.kind == "stmt" and isinstance(m.ast, ast.Assign) and dotted(m.ast.targets[0]) == kv and any(x is m.ast for x in ast.walk(lp.ast))]
-        pref = [m for m in defs if isinstance(m.ast.value, ast.BinOp) and isinstance(m.ast.value.op, ast.Add) and isinstance(m.ast.value.left, ast.Constant) and m.ast.value.left.value == "HTTP_"]
-        ren = [m for m in defs if isinstance(m.ast.value, ast.Call) and dotted(m.ast.value.func) == "rename_headers.get"]
-        if pref and len(defs) == len(pref) + len(ren):
-            ctx.r.ok(rid, "client keys are 'HTTP_' + name (or a rename target)", f.loc(pref[0].ast))
-        else:
-            ctx.r.violation(rid, key_of(f, None, "client-key-derivation"), "client header keys are derived by %s" % [norm(m.ast.value) for m in defs], f.loc(n.ast))
-        for m in pref:
-            if not any(pol and isinstance(t, ast.Compare) and norm(t) == "%s is None" % kv for (t, pol) in guards_of(g, m)):
-                ctx.r.violation(rid, key_of(f, None, "prefix-guard"), "the HTTP_ prefix is not applied exactly when there is no rename target", f.loc(m.ast))
+        _key_derivation(ctx, rid, f, g, lp, kv, n)
     ren = p.const("task", "rename_headers")
     if isinstance(ren, dict) and set(ren.values()) <= {"CONTENT_LENGTH", "CONTENT_TYPE"} and all(k == v for k, v in ren.items()):
         ctx.r.ok(rid, "rename targets are CONTENT_LENGTH / CONTENT_TYPE only", "src/waitress/task.py")
@@ -167,6 +162,24 @@ def rule_r4(ctx):
             ctx.r.ok(rid, "later store uses the literal server key %s" % k.value, f.loc(n.ast))
         else:
             ctx.r.violation(rid, key_of(f, None, "late-store::" + norm(k)), "a store after the header loop uses key %s" % norm(k), f.loc(n.ast))
+
+
+def _key_derivation(ctx, rid, f, g, lp, kv, n):
+    """The environ key of a client header is 'HTTP_' + name, or the rename target when there is one."""
+    defs = [m for m in g.nodes if m.kind == "stmt" and isinstance(m.ast, ast.Assign) and dotted(m.ast.targets[0]) == kv and any(x is m.ast for x in ast.walk(lp.ast))]
+    pref = [m for m in defs if isinstance(m.ast.value, ast.BinOp) and isinstance(m.ast.value.op, ast.Add) and isinstance(m.ast.value.left, ast.Constant) and m.ast.value.left.value == "HTTP_"]
+    ren = [m for m in defs if (isinstance(m.ast.value, ast.Call) and dotted(m.ast.value.func) == "rename_headers.get")
+           or (isinstance(m.ast.value, ast.Subscript) and dotted(m.ast.value.value) == "rename_headers")]
+    if pref and len(defs) == len(pref) + len(ren):
+        ctx.r.ok(rid, "client keys are 'HTTP_' + name (or a rename target)", f.loc(pref[0].ast))
+    else:
+        ctx.r.violation(rid, key_of(f, None, "client-key-derivation"), "client header keys are derived by %s" % [norm(m.ast.value) for m in defs], f.loc(n.ast))
+    for m in pref:
+        gs = guards_of(g, m)
+        none_guard = any(cmp_fact(t, pol) == ("is", kv, "None", True) for (t, pol) in gs)
+        member_guard = any((cmp_fact(t, pol) or ("",))[0] == "in" and cmp_fact(t, pol)[2] == "rename_headers" and cmp_fact(t, pol)[3] is False for (t, pol) in gs)
+        if not (none_guard or member_guard):
+            ctx.r.violation(rid, key_of(f, None, "prefix-guard"), "the HTTP_ prefix is not applied exactly when there is no rename target", f.loc(m.ast))
 
 
 def rule_r5(ctx):
@@ -295,7 +308,9 @@ def rule_r8(ctx):
     }
     for k, alts in want.items():
         if k in kv:
-            if norm(kv[k]) in alts or any(a.startswith("template:") and template_text(str_template(kv[k])) == a[9:] for a in alts):
+            full = norm(resolve_locals(f, kv[k]))
+            if norm(kv[k]) in alts or any(text_matches(full, a) for a in alts if not a.startswith("template:")) \
+                    or any(a.startswith("template:") and template_text(str_template(kv[k])) == a[9:] for a in alts):
                 ctx.r.ok(rid, "%s = %s" % (k, norm(kv[k])), f.loc(kv[k]))
             else:
                 ctx.r.violation(rid, key_of(f, None, "binding::" + k), "%s is bound to %s (expected %s)" % (k, norm(kv[k]), alts[0]), f.loc(kv[k]))
